@@ -73,6 +73,61 @@ def split_path(path):
     return out
 
 
+def _anchor_renames(loaded):
+    """A function of the reference tree (rules/fn_sigs.json) that is missing from the current tree, while exactly one
+    new function with the same signature exists in the same module (or, failing that, in the same crate with the same
+    parameter names), has been renamed or moved: map the new path back to the frozen one so that the rule tables'
+    anchors and callee names keep resolving (renaming a function does not change behaviour)."""
+    here = os.path.dirname(os.path.dirname(os.path.abspath(__file__)))
+    try:
+        frozen = json.load(open(os.path.join(here, 'rules', 'fn_sigs.json')))
+        fparams = json.load(open(os.path.join(here, 'rules', 'param_names.json')))
+    except (OSError, ValueError):
+        return {}
+    cur = {}
+    crates = set()
+    for d in loaded:
+        crates.add(d['crate'])
+        for b in d['bodies']:
+            if b['kind'] == 'fn' and '<' not in b['path'] and '::tests' not in b['path']:
+                names = [None] * b['argc']
+                for e in b['debug']:
+                    if e.get('arg') is not None and e.get('p') and len(e['p']) == 1 and 1 <= e['arg'] <= b['argc']:
+                        names[e['arg'] - 1] = e['n']
+                cur[b['path']] = ([l['ty'] for l in b['locals'][:b['argc'] + 1]], names)
+    missing = [p for p in frozen if p not in cur and p.split('::')[0] in crates]
+    fresh = [p for p in cur if p not in frozen]
+    if not missing or not fresh:
+        return {}
+    out = {}
+    taken = set()
+    for p in sorted(missing):
+        parent = p.rsplit('::', 1)[0]
+        same_sig = [q for q in fresh if cur[q][0] == frozen[p] and q not in taken]
+        cands = [q for q in same_sig if q.rsplit('::', 1)[0] == parent]
+        if len(cands) != 1:
+            cands = [q for q in same_sig if q.split('::')[0] == p.split('::')[0] and cur[q][1] == fparams.get(p)]
+        if len(cands) == 1:
+            out[cands[0]] = p
+            taken.add(cands[0])
+    return out
+
+
+def _rename_paths(x, ren):
+    if isinstance(x, str):
+        for q, p in ren.items():
+            if x == q:
+                return p
+            if x.startswith(q + '::'):
+                return p + x[len(q):]
+        return x
+    if isinstance(x, list):
+        return [_rename_paths(v, ren) for v in x]
+    if isinstance(x, dict):
+        return {k: _rename_paths(v, ren) for k, v in x.items()}
+    return x
+
+
 class Program:
     def __init__(self, fact_files):
         self.crates = {}
@@ -81,10 +136,16 @@ class Program:
         self.adts_by_name = defaultdict(list)
         self.impls = []
         self.features = {}
+        loaded = []
         for f in fact_files:
             d = json.load(open(f))
             if d.get('test'):
                 continue
+            loaded.append(d)
+        self.fn_renames = _anchor_renames(loaded)
+        if self.fn_renames:
+            loaded = [_rename_paths(d, self.fn_renames) for d in loaded]
+        for d in loaded:
             self.crates[d['crate']] = d
             self.features[d['crate']] = d['features']
             for b in d['bodies']:
